@@ -112,6 +112,9 @@ def run(ctx, R, tier):
         # the other property's own anchors are gone on this tree: its check reports that; what it produced before is still shared
         R.note("obligations shared from C14 are incomplete on this tree: %s" % _shared_x)
     for o in R14.obs:
+        if o.key in ("C14-R3|register|safe-refuses-every-name-that-is-present", "C14-R3|MemoryStorage.everything|answers-with-a-snapshot"):
+            R.add("C15-R1", o.key.split("|", 1)[1], o.desc + " (of concurrent safe registrations of one name exactly one succeeds; a listing is one state of the map, not a window onto it)",
+                  o.ok, o.loc, o.detail)
         if o.rule == "C14-R2":
             R.add("C15-R3", o.key.split("|", 1)[1], o.desc + " (lookup and count take no lock: a second commit inside one operation would be visible to them as a state no "
                   "sequential order explains)", o.ok, o.loc, o.detail)
